@@ -142,10 +142,11 @@ def check_C06(rep, tier):
         "Engine E on all 506 layouts: int, frac, floor, ceil, round, round_ties_to_even, round_to_zero equal their "
         "definitional specifications over the bits (floor = bits & -2^f; the others as case analyses over floor and "
         "floor + 1, with the overflow flag computed exactly, including 0 and 1 integer bits) wherever the pair "
-        "normalises, and the checked_/wrapping_ forms are Some/None resp. the value of the overflowing_ ones. " +
+        "normalises (without fraction bits: round and round_ties_to_even are the identity and never overflow), and "
+        "the checked_/wrapping_ forms are Some/None resp. the value of the overflowing_ ones. " +
         "Engine A: the checked/saturating/wrapping/overflowing rounding forms, int, frac and round_to_zero are "
         "panic-free for every value (including 0 and 1 integer bits); ceil/floor/round reach only their documented "
-        "debug overflow panic. Not decided: saturating sides, layouts listed as exceptions in the registry.", [a, e])
+        "debug overflow panic. Not decided: layouts listed as exceptions in the registry.", [a, e])
     return "other", cov, TRUST_A + TRUST_E
 
 
@@ -179,7 +180,8 @@ def check_C03(rep, tier):
         "accounts for the destination sign bit, otherwise an operand in [2^(n-1), 2^n) is read as negative. "
         "Engine E: same-type Ord::cmp, Hash::hash (and ==, <, ... where they normalise) are those of the bits; "
         "sibling cross-check between types: `a < b` is `b > a` for every pair, and each operator agrees with the "
-        "separately implemented partial_cmp at the (few) pairs where the two bodies normalise. " +
+        "separately implemented partial_cmp, and with the exact comparison of the two bit patterns aligned in a "
+        "128-bit integer, at the (few) pairs where the two bodies normalise. " +
         "Engine A: every PartialEq/PartialOrd method between fixed types, primitive integers and floats (both operand "
         "orders), Ord::cmp and Hash::hash is panic-free for every operand. Not decided: the ordering logic itself "
         "(lost-bits direction, overflow short-circuit) and NaN/infinity classification.", [sw, e, a])
@@ -198,11 +200,17 @@ def check_C04(rep, tier):
         "Engine T: From / LossyFrom impls exist for no (source, destination) pair at which the conversion could "
         "overflow or (From) lose bits, for all fixed x fixed pairs probed and every primitive in both directions. "
         "Engine E: From, LossyFrom, wrapping_to_num and wrapping_from_num equal 'extend or truncate and shift toward "
-        "minus infinity' at the boundary pairs; checked_/wrapping_ forms agree with overflowing_. S-widest: the "
+        "minus infinity' at the boundary pairs; the flag of overflowing_to_num / overflowing_from_num (fixed and "
+        "primitive-integer operands) equals the definitional range test 'floor(bits * 2^shift) lies in the "
+        "destination range' (eq_specs.fits_expr, validated against exact integer arithmetic by "
+        "tools/dev/validate_fits.py) wherever the pair normalises -- every unsigned source, about half of the signed "
+        "ones; checked_ forms are None exactly on that flag and saturating_ forms return the bound on the value's "
+        "side; checked_/wrapping_ forms agree with overflowing_. S-widest: the "
         "destination-side sign check is present in every consumer. " +
         "Engine A: checked_/saturating_/wrapping_/overflowing_ from_num/to_num between fixed layouts and primitive "
         "integers/bool never panic; from_num/to_num reach only the documented debug overflow assertion. Not decided: "
-        "exactness of the overflow flag of overflowing_to_num for all pairs, the saturating side.", [t, e, sw, a])
+        "the overflow flag at the pairs listed as exceptions in the registry (signed sources whose leading-bit count "
+        "LLVM does not fold into a range test), pairs away from the boundary set.", [t, e, sw, a])
     return "other", cov, TRUST_A + TRUST_E + ["the arithmetic availability specification in tools/vf/engine_t.py (from_is_safe / lossy_is_safe)"]
 
 
